@@ -47,6 +47,9 @@ func main() {
 			enc.Encode(h.Result{ID: id, Status: "infra", Infra: "bad behaviour: " + err.Error()})
 			continue
 		}
+		// (a marker first: if the library takes the process down, the driver knows during which behaviour)
+		enc.Encode(h.Result{ID: id, Status: "started"})
+		out.Flush()
 		res := h.Replay(id, d, steps)
 		enc.Encode(res)
 	}
